@@ -36,11 +36,13 @@ pub struct G<'a> {
     pub wide_index: bool,
     /// generate PlutusV1 scripts only (the JSON form of a script does not record its language)
     pub v1_only: bool,
+    /// Mint values hold a policy id more than once (Mint::insert appends; C01's own stream only)
+    pub repeat_mint_policy: bool,
 }
 
 impl<'a> G<'a> {
     pub fn new(r: &'a mut Rng, depth: u32, coll: usize) -> G<'a> {
-        G { r, depth, coll, tags: Tags::default(), mask: None, force_int: None, sorted_bias: 8, wide_index: false, v1_only: false }
+        G { r, depth, coll, tags: Tags::default(), mask: None, force_int: None, sorted_bias: 8, wide_index: false, v1_only: false, repeat_mint_policy: false }
     }
 
     /// decision for an optional field
@@ -261,6 +263,13 @@ impl<'a> G<'a> {
             let mut ma = MintAssets::new();
             let _ = ma.insert(&AssetName::new(vec![1]).unwrap(), &Int::new_i32(1));
             m.insert(&self.scripthash(), &ma);
+        }
+        if self.repeat_mint_policy {
+            // the same policy once more with other assets, next to the first entry or after the others
+            let p = seen.first().cloned().unwrap_or_else(|| m.keys().get(0));
+            let mut ma = MintAssets::new();
+            let _ = ma.insert(&AssetName::new(vec![0x72, self.r.below(3) as u8]).unwrap(), &Int::new_i32(1 + self.r.below(100) as i32));
+            m.insert(&p, &ma);
         }
         m
     }
